@@ -312,6 +312,106 @@ func c16() []*Ob {
 					}
 				}
 			}},
+		{Prop: "C16", ID: "C16.7", Engine: "PROV", Floor: 1,
+			Desc: "documents are always aligned with the ids by position: every stream FetchDocsStream hands out on success is the merged iterator built from the full id list (newMergedStreamIterator) — a store's own stream returned directly pairs its documents with the ids of other stores as soon as one source failed or sent an extra document",
+			Check: func(c *Ctx) {
+				fn := c.Fn("(*proxy/search.Ingestor).FetchDocsStream")
+				if fn == nil {
+					return
+				}
+				idx := ErrorResultIndex(fn)
+				n := 0
+				for _, b := range fn.Blocks {
+					ret, ok := b.Instrs[len(b.Instrs)-1].(*ssa.Return)
+					if !ok || idx < 0 || !IsNilConst(RetOperand(ret, idx)) {
+						continue
+					}
+					n++
+					v := RetOperand(ret, 0)
+					merged := DerivesFromNoCall(v, func(x ssa.Value) bool { return false }) || func() bool {
+						mi, ok := v.(*ssa.MakeInterface)
+						if !ok {
+							return false
+						}
+						cl, ok := mi.X.(*ssa.Call)
+						return ok && (CallName(cl) == "proxy/search.newMergedStreamIterator" || c.P.HasCall(StaticCallee(cl), Callee("proxy/search.newMergedStreamIterator")))
+					}()
+					empty := false
+					if mi, ok := v.(*ssa.MakeInterface); ok && strings.HasSuffix(TypeStr(mi.X.Type()), "EmptyDocsStream") {
+						empty = true
+					}
+					if merged || empty {
+						c.Site(ret.Pos(), "FetchDocsStream returns the merged, position-aligned iterator")
+					} else {
+						c.Violation("prov:FetchDocsStream:not-merged", ret.Pos(), "FetchDocsStream returns a stream that is not the merged iterator over the full id list: the caller pairs the i-th document with the i-th id, which only the merged iterator guarantees")
+					}
+				}
+				if n == 0 {
+					c.Undecided("prov:FetchDocsStream:no-success-return", fn.Pos(), "FetchDocsStream has no success return")
+				}
+			}},
+		{Prop: "C16", ID: "C16.8", Engine: "PROV", Floor: 1,
+			Desc: "a hot store knows what it no longer has: after retention has dropped fractions, FracManager.OldestCT is recomputed from the fractions that remain (the local list shrinkSizes asks for the oldest creation time is advanced with every shiftFirstFrac, or re-read after the loop) — a stale value makes the store answer a range it has already dropped instead of sending the proxy to the long-term tier",
+			Check: func(c *Ctx) {
+				fn := c.Fn("(*fracmanager.FracManager).shrinkSizes")
+				if fn == nil {
+					return
+				}
+				shifts := c.P.FindLifted(fn, CallSel(Callee("(*fracmanager.FracManager).shiftFirstFrac")))
+				if len(shifts) == 0 || len(shifts[0].Via) > 0 {
+					c.Site(fn.Pos(), "shrinkSizes no longer evicts in a loop of its own")
+					return
+				}
+				l := InnermostLoop(shifts[0].In.Block())
+				if l == nil {
+					c.Undecided("prov:shrinkSizes:loop", shifts[0].In.Pos(), "shiftFirstFrac is not called in a loop")
+					return
+				}
+				olds := c.P.FindLifted(fn, CallSel(Callee("(fracmanager.List).GetOldestFrac")))
+				if len(olds) == 0 {
+					c.Undecided("prov:shrinkSizes:no-oldest", fn.Pos(), "shrinkSizes no longer recomputes the oldest creation time")
+					return
+				}
+				for _, o := range olds {
+					at := o.In
+					if len(o.Via) > 0 {
+						at = o.Via[0].(ssa.Instruction)
+					}
+					call := at.(ssa.CallInstruction)
+					var list ssa.Value
+					if len(o.Via) == 0 {
+						list = call.Common().Args[0]
+					} else {
+						// the helper receives the list as an argument
+						for _, a := range call.Common().Args {
+							if strings.HasSuffix(TypeStr(a.Type()), "fracmanager.List") {
+								list = a
+							}
+						}
+					}
+					if list == nil {
+						c.Undecided("prov:shrinkSizes:list", at.Pos(), "cannot find the list GetOldestFrac is asked on")
+						continue
+					}
+					advanced := DerivesFromNoCall(list, func(x ssa.Value) bool {
+						sl, ok := x.(*ssa.Slice)
+						if !ok || !l.Blocks[sl.Block()] || sl.Low == nil {
+							return false
+						}
+						k, isK := ConstInt(sl.Low)
+						return isK && k == 1
+					})
+					reread := DerivesFrom(list, func(x ssa.Value) bool {
+						cl, ok := x.(*ssa.Call)
+						return ok && strings.HasSuffix(CallName(cl), ".GetAllFracs") && !l.Blocks[cl.Block()] && l.Header.Dominates(cl.Block())
+					})
+					if advanced || reread {
+						c.Site(at.Pos(), "the oldest creation time is taken from the fractions that remain")
+					} else {
+						c.Violation("prov:shrinkSizes:stale-oldest", at.Pos(), "the list shrinkSizes asks for the oldest creation time is the one taken before the evictions and is not advanced with them: OldestCT keeps naming a fraction that was just dropped, and a mature hot store answers a range it no longer has instead of asking for the long-term tier")
+					}
+				}
+			}},
 		{Prop: "C16", ID: "C16.5", Engine: "DOM+ORDER", Floor: 2,
 			Desc: "i-th document is the i-th id's: mergedStreamIterator.Next consumes exactly one id per non-EOF call, fast-forwards over every unexpected document in a loop, returns the buffered document only when currentID.Equal(nextDoc.IDSource()) and an empty document otherwise; the iterator's less function is built from the same ids it walks",
 			Check: func(c *Ctx) {
